@@ -13,73 +13,73 @@ Open Scope N_scope.
 (* Main statement: when nothing forces a refusal (no_error: no key requires BAD and every message the keys need
    can be read), SEARCH / UID SEARCH return, in view order, the numbers of exactly the messages of the view on
    which the key tree evaluates to true. *)
-Theorem C15_compile_correct : forall uidmode keys snap, wf_snap snap -> no_error keys snap ->
-  search uidmode keys snap =
-  ROk (map (mapfn_of uidmode) (filter (eval (snap_cnt snap) (snap_uids snap) (KList keys)) snap)).
+Theorem C15_compile_correct : forall cs uidmode keys snap, wf_snap snap -> no_error keys snap ->
+  search cs uidmode keys snap =
+  ROk (map (mapfn_of uidmode) (filter (eval cs (snap_cnt snap) (snap_uids snap) (KList keys)) snap)).
 Proof. exact search_no_error. Qed.
 Print Assumptions C15_compile_correct.
 
 (* Complete characterisation, including the refusals. *)
-Theorem C15_search_total : forall uidmode keys snap, wf_snap snap ->
-  search uidmode keys snap =
+Theorem C15_search_total : forall cs uidmode keys snap, wf_snap snap ->
+  search cs uidmode keys snap =
   if key_bad (snap_cnt snap) (KList keys) then RBad
   else if existsb (msg_unreadable (KList keys)) snap then RNo
-  else ROk (map (mapfn_of uidmode) (sel_of keys snap)).
+  else ROk (map (mapfn_of uidmode) (sel_of cs keys snap)).
 Proof. exact search_correct. Qed.
 Print Assumptions C15_search_total.
 
 (* ascending order, no duplicates *)
-Theorem C15_ascending_nodup : forall uidmode keys snap l, wf_snap snap ->
-  search uidmode keys snap = ROk l -> srt l /\ NoDup l.
+Theorem C15_ascending_nodup : forall cs uidmode keys snap l, wf_snap snap ->
+  search cs uidmode keys snap = ROk l -> srt l /\ NoDup l.
 Proof. exact search_ascending. Qed.
 Print Assumptions C15_ascending_nodup.
 
 (* UID SEARCH returns the UIDs of the same messages (and is refused exactly when SEARCH is) *)
-Theorem C15_uid_search_same_messages : forall keys snap, wf_snap snap ->
-  match search false keys snap with
-  | ROk ls => ls = map m_seq (sel_of keys snap) /\ search true keys snap = ROk (map m_uid (sel_of keys snap))
-  | r => search true keys snap = r
+Theorem C15_uid_search_same_messages : forall cs keys snap, wf_snap snap ->
+  match search cs false keys snap with
+  | ROk ls => ls = map m_seq (sel_of cs keys snap) /\ search cs true keys snap = ROk (map m_uid (sel_of cs keys snap))
+  | r => search cs true keys snap = r
   end.
 Proof. exact search_uid_same. Qed.
 Print Assumptions C15_uid_search_same_messages.
 
 (* Boolean structure, on the result SETS *)
-Theorem C15_not_is_complement : forall uidmode k snap l, wf_snap snap ->
-  search uidmode [KNot k] snap = ROk l ->
-  exists l', search uidmode [k] snap = ROk l' /\
+Theorem C15_not_is_complement : forall cs uidmode k snap l, wf_snap snap ->
+  search cs uidmode [KNot k] snap = ROk l ->
+  exists l', search cs uidmode [k] snap = ROk l' /\
              forall p, In p l <-> In p (map (mapfn_of uidmode) snap) /\ ~ In p l'.
 Proof. exact search_not. Qed.
 Print Assumptions C15_not_is_complement.
 
-Theorem C15_or_is_union : forall uidmode a b snap l, wf_snap snap ->
-  search uidmode [KOr a b] snap = ROk l ->
-  exists la lb, search uidmode [a] snap = ROk la /\ search uidmode [b] snap = ROk lb /\
+Theorem C15_or_is_union : forall cs uidmode a b snap l, wf_snap snap ->
+  search cs uidmode [KOr a b] snap = ROk l ->
+  exists la lb, search cs uidmode [a] snap = ROk la /\ search cs uidmode [b] snap = ROk lb /\
                 forall p, In p l <-> In p la \/ In p lb.
 Proof. exact search_or. Qed.
 Print Assumptions C15_or_is_union.
 
-Theorem C15_juxtaposition_is_intersection : forall uidmode k1 k2 snap l, wf_snap snap ->
-  search uidmode (k1 ++ k2) snap = ROk l ->
-  exists l1 l2, search uidmode k1 snap = ROk l1 /\ search uidmode k2 snap = ROk l2 /\
+Theorem C15_juxtaposition_is_intersection : forall cs uidmode k1 k2 snap l, wf_snap snap ->
+  search cs uidmode (k1 ++ k2) snap = ROk l ->
+  exists l1 l2, search cs uidmode k1 snap = ROk l1 /\ search cs uidmode k2 snap = ROk l2 /\
                 forall p, In p l <-> In p l1 /\ In p l2.
 Proof. exact search_and. Qed.
 Print Assumptions C15_juxtaposition_is_intersection.
 
-Theorem C15_parenthesised_list : forall uidmode ks snap, wf_snap snap ->
-  search uidmode [KList ks] snap = search uidmode ks snap.
+Theorem C15_parenthesised_list : forall cs uidmode ks snap, wf_snap snap ->
+  search cs uidmode [KList ks] snap = search cs uidmode ks snap.
 Proof. exact search_paren. Qed.
 Print Assumptions C15_parenthesised_list.
 
 (* the session's view is what is searched: every message it holds is reported iff it satisfies the keys *)
-Theorem C15_uses_session_view : forall uidmode keys snap m, wf_snap snap -> no_error keys snap -> In m snap ->
-  exists l, search uidmode keys snap = ROk l /\
-            (In (mapfn_of uidmode m) l <-> eval (snap_cnt snap) (snap_uids snap) (KList keys) m = true).
+Theorem C15_uses_session_view : forall cs uidmode keys snap m, wf_snap snap -> no_error keys snap -> In m snap ->
+  exists l, search cs uidmode keys snap = ROk l /\
+            (In (mapfn_of uidmode m) l <-> eval cs (snap_cnt snap) (snap_uids snap) (KList keys) m = true).
 Proof. exact search_uses_view. Qed.
 Print Assumptions C15_uses_session_view.
 
 (* refusals: BAD exactly when a key of the tree requires it; a sequence number beyond the view always does *)
-Theorem C15_bad_iff : forall uidmode keys snap, wf_snap snap ->
-  (search uidmode keys snap = RBad <-> key_bad (snap_cnt snap) (KList keys) = true).
+Theorem C15_bad_iff : forall cs uidmode keys snap, wf_snap snap ->
+  (search cs uidmode keys snap = RBad <-> key_bad (snap_cnt snap) (KList keys) = true).
 Proof. exact search_bad_iff. Qed.
 Print Assumptions C15_bad_iff.
 
@@ -100,12 +100,26 @@ Example C15_example_hypotheses : wf_snap ex_snap /\
 Proof. vm_compute. repeat split. Qed.
 
 Example C15_example_results :
-  search false [KOr (KLeaf LSeen) (KNot (KLeaf (LSubject (bs "HELLO")))); KLeaf (LSeqSet [(WNum 2, WStar)])] ex_snap
+  let cs := CsNone in
+  search cs false [KOr (KLeaf LSeen) (KNot (KLeaf (LSubject (bs "HELLO")))); KLeaf (LSeqSet [(WNum 2, WStar)])] ex_snap
     = ROk [2; 3]
-  /\ search true [KLeaf (LSentSince 738000)] ex_snap = ROk [2; 5]
-  /\ search false [KNot (KLeaf (LSentSince 738000))] ex_snap = ROk [3]
-  /\ search false [KLeaf (LHeader (bs "X-TAG") (bs "two"))] ex_snap = ROk [1; 2; 3]
-  /\ search false [KLeaf (LHeader (bs "X-Other") [])] ex_snap = ROk []
-  /\ search false [KLeaf (LSeqSet [(WNum 4, WNum 4)])] ex_snap = RBad
-  /\ search false [KNot (KLeaf (LSeqSet [(WNum 4294967297, WNum 4294967297)]))] ex_snap = RBad.
+  /\ search cs true [KLeaf (LSentSince 738000)] ex_snap = ROk [2; 5]
+  /\ search cs false [KNot (KLeaf (LSentSince 738000))] ex_snap = ROk [3]
+  /\ search cs false [KLeaf (LHeader (bs "X-TAG") (bs "two"))] ex_snap = ROk [1; 2; 3]
+  /\ search cs false [KLeaf (LHeader (bs "X-Other") [])] ex_snap = ROk []
+  /\ search cs false [KLeaf (LSeqSet [(WNum 4, WNum 4)])] ex_snap = RBad
+  /\ search cs false [KNot (KLeaf (LSeqSet [(WNum 4294967297, WNum 4294967297)]))] ex_snap = RBad.
 Proof. vm_compute. repeat split. Qed.
+
+(* CHARSET: the key "rÉUnion" sent as ISO-8859-1 (É = 0xC9) finds the message whose Subject says "Réunion" in UTF-8;
+   decoding comes first, folding second — folding the undecoded key would have destroyed the byte 0xC9 *)
+Definition ex_latin_key : bytes := [114; 201; 85; 110; 105; 111; 110].
+Definition ex_snap2 : list msgdata :=
+  [mkMsg 1 1 [] 50 738000 None [(bs "Subject", [82; 195; 169] ++ bs "union au caf" ++ [195; 169])] (bs "x") (bs "y") true true true;
+   mkMsg 2 2 [] 50 738000 None [(bs "Subject", bs "Reunion au cafe")] (bs "x") (bs "y") true true true].
+Example C15_example_charset :
+  search CsLatin1 false [KLeaf (LSubject ex_latin_key)] ex_snap2 = ROk [1]
+  /\ search CsLatin1 true [KNot (KLeaf (LSubject ex_latin_key))] ex_snap2 = ROk [2]
+  /\ keynorm CsLatin1 ex_latin_key = bs "r" ++ [195; 169] ++ bs "union"
+  /\ decode CsLatin1 (ufold ex_latin_key) <> keynorm CsLatin1 ex_latin_key.
+Proof. vm_compute. repeat split. discriminate. Qed.
